@@ -113,10 +113,11 @@ inline std::vector<Sub>& registry() { static std::vector<Sub> r; return r; }
 // Property body convention: returns "" when the case passes, otherwise the reason.
 // Case must provide: std::string dump() const; static Case parse(const KV&);
 template <class Case>
-void registerCheck(const std::string& name, std::function<rc::Gen<Case>()> gen, std::function<std::string(const Case&)> body, bool heavy = false) {
+void registerCheck(const std::string& name, std::function<rc::Gen<Case>()> gen, std::function<std::string(const Case&)> body, bool heavy = false,
+	std::function<Case(const Case&)> minimizer = nullptr) {
 	Sub s;
 	s.name = name;
-	s.runGen = [name, gen, body, heavy](int n, int maxSize, uint64_t seed) -> bool {
+	s.runGen = [name, gen, body, heavy, minimizer](int n, int maxSize, uint64_t seed) -> bool {
 		auto& S = st();
 		S.curSub = name;
 		S.writeCurrent = heavy;
@@ -149,6 +150,15 @@ void registerCheck(const std::string& name, std::function<rc::Gen<Case>()> gen, 
 		rc::detail::FailureResult fr;
 		if (result.match(fr)) {
 			// lastFailText is the last failing execution == shrunk counterexample
+			if (minimizer) {
+				// structural minimisation (e.g. instruction-wise delta debugging of a program) on top of rapidcheck's shrink
+				std::map<std::string, std::string> kv;
+				std::stringstream ss(S.lastFailText); std::string line;
+				while (std::getline(ss, line)) { auto p = line.find('='); if (p != std::string::npos) kv[line.substr(0, p)] = line.substr(p + 1); }
+				Case m = minimizer(Case::parse(kv));
+				std::string why = body(m);
+				if (!why.empty()) { S.lastFailText = m.dump(); S.lastFailWhy = why; }
+			}
 			char fn[512];
 			snprintf(fn, sizeof fn, "%s/%s-%s-%llx.txt", S.replayDir.c_str(), S.prop.c_str(), name.c_str(), (unsigned long long)seed);
 			FILE* f = fopen(fn, "w");
